@@ -620,6 +620,8 @@ class PathCtx:
     def validate_replay(self, name, case, model=None):
         """Witness replay through the property oracle of the real-code side: on a path whose
         obligations were all discharged the float oracle must agree (no violation)."""
+        if self.rep.violations or self.rep.unconfirmed:
+            return None  # a counterexample was already reported on this run
         if model is None:
             model = self.reach(name)
             if model is None:
